@@ -35,6 +35,13 @@ func main() {
 			os.Exit(1)
 		}
 		props.DebugExec(prog, os.Args[2], os.Args[3])
+	case "guards":
+		prog, err := core.Load(core.RepoDir(), "")
+		if err != nil {
+			fmt.Println(err)
+			os.Exit(1)
+		}
+		props.DebugGuards(prog, os.Args[2], os.Args[3])
 	case "explain":
 		if len(os.Args) < 3 {
 			usage()
